@@ -4,10 +4,11 @@ Model of tonic-health/src/server.rs as it is.
 
 * `HealthReporter.statuses : Arc<RwLock<HashMap<String, (watch::Sender, watch::Receiver)>>>`
   is `reg` (name ↦ index of a channel) plus the arena `chans` of every `watch::channel` ever
-  created.  A channel is `{value, version, closed, rx}`: tokio's `watch` keeps one value and a
+  created.  A channel is `{value, version, closed}`: tokio's `watch` keeps one value and a
   version that every `send` bumps (whether or not the value differs); `closed` = the `Sender`
-  has been dropped; `rx` = number of live `Receiver`s (the one stored in the table and one per
-  live `WatchStream`) — `Sender::send` fails, and `set_service_status` then panics, iff it is 0.
+  has been dropped.  `Sender::send` fails only when no `Receiver` is alive; the table entry that
+  holds the `Sender` holds a `Receiver` too, so the `expect` in `set_service_status` cannot
+  fire and the model has no panic outcome (the harness would still observe one).
 * `HealthService::watch` clones the stored receiver into `tokio_stream::wrappers::WatchStream::new`:
   its first poll yields the value then current (`borrow_and_update`); later polls yield when the
   version differs from the one seen, end when it does not and the sender is gone, and are
@@ -21,7 +22,6 @@ structure Chan where
   value : St
   version : Nat
   closed : Bool
-  rx : Nat
 deriving DecidableEq, Repr
 
 structure Watcher where
@@ -39,32 +39,26 @@ deriving Repr
 
 /-- `HealthReporter::new`: `""` ↦ `watch::channel(Serving)`. -/
 def init : H :=
-  { chans := [⟨.serving, 0, false, 1⟩], reg := [([], 0)], watchers := [] }
+  { chans := [⟨.serving, 0, false⟩], reg := [([], 0)], watchers := [] }
 
 def lookup (n : Name) : List (Name × Nat) → Option Nat
   | [] => none
   | (m, i) :: r => if m = n then some i else lookup n r
 
-def erase (n : Name) (r : List (Name × Nat)) : List (Name × Nat) :=
-  r.filter (fun p => decide (p.1 ≠ n))
+def erase (n : Name) : List (Name × Nat) → List (Name × Nat)
+  | [] => []
+  | (m, i) :: r => if m = n then erase n r else (m, i) :: erase n r
 
 def Chan.send (c : Chan) (s : St) : Chan := { c with value := s, version := c.version + 1 }
 /-- dropping the table entry drops the `Sender` and the stored `Receiver` -/
-def Chan.close (c : Chan) : Chan := { c with closed := true, rx := c.rx - 1 }
-def Chan.addRx (c : Chan) : Chan := { c with rx := c.rx + 1 }
-def Chan.dropRx (c : Chan) : Chan := { c with rx := c.rx - 1 }
+def Chan.close (c : Chan) : Chan := { c with closed := true }
 
 def step (s : H) : Op → H × Resp
   | .set n st =>
     match lookup n s.reg with
-    | some i =>
-      match s.chans[i]? with
-      | some c =>
-        if c.rx = 0 then (s, .panic)     -- `tx.send(status).expect("channel should not be closed")`
-        else ({ s with chans := s.chans.modify i (fun c => c.send st) }, .done)
-      | none => (s, .panic)              -- dangling table entry: cannot happen (invariant)
+    | some i => ({ s with chans := s.chans.modify i (fun c => c.send st) }, .done)
     | none =>
-      ({ s with chans := s.chans ++ [⟨st, 0, false, 1⟩], reg := (n, s.chans.length) :: s.reg }, .done)
+      ({ s with chans := s.chans ++ [⟨st, 0, false⟩], reg := (n, s.chans.length) :: s.reg }, .done)
   | .clear n =>
     match lookup n s.reg with
     | some i => ({ s with chans := s.chans.modify i Chan.close, reg := erase n s.reg }, .done)
@@ -75,8 +69,7 @@ def step (s : H) : Op → H × Resp
     | none => (s, .notFound)
   | .watch n =>
     match lookup n s.reg with
-    | some i =>
-      ({ s with chans := s.chans.modify i Chan.addRx, watchers := s.watchers ++ [some ⟨i, none⟩] }, .subscribed)
+    | some i => ({ s with watchers := s.watchers ++ [some ⟨i, none⟩] }, .subscribed)
     | none => ({ s with watchers := s.watchers ++ [none] }, .notFound)
   | .next w =>
     match s.watchers[w]? with
@@ -91,8 +84,7 @@ def step (s : H) : Op → H × Resp
     | _ => (s, .noWatcher)
   | .drop w =>
     match s.watchers[w]? with
-    | some (some wt) =>
-      ({ s with chans := s.chans.modify wt.chan Chan.dropRx, watchers := s.watchers.set w none }, .done)
+    | some (some _) => ({ s with watchers := s.watchers.set w none }, .done)
     | _ => (s, .noWatcher)
 
 /-- State after a sequence of operations. -/
